@@ -181,3 +181,53 @@ def ensure_repo_on_path():
         sys.path.insert(0, p)
     os.environ.setdefault("PYIMPSPEC_VERIF", "1")
     os.environ.setdefault("MPLBACKEND", "Agg")
+
+
+# -- history replay from a TLC dump ---------------------------------------------
+
+def _replay_range(arg):
+    from . import tlaval
+    judge, path, start, end, max_hist, ctx = arg
+    ensure_repo_on_path()
+    n = 0
+    out = []
+    sample = []
+    for st in tlaval.iter_dump_range(path, start, end):
+        hist = st["hist"]
+        if len(hist) != max_hist:
+            continue
+        n += 1
+        if len(sample) < 2:
+            sample.append(tlaval.to_jsonable([{k: x for k, x in r.items() if k != "p"} for r in hist]))
+        for res in judge(hist, ctx):
+            kind, sig, step, detail, extra = res
+            out.append((kind, sig, [tlaval.to_jsonable(r) for r in hist[:step + 1]], detail, extra))
+    return n, out, sample
+
+
+def replay_dump(v: "Verdict", spec: str, path: str, max_hist: int, judge, ctx=None, procs: int = 16, count_mult: int = 1):
+    """Replay every history of length max_hist found in a TLC dump.
+
+    judge(hist, ctx) -> iterable of (kind, signature, step, detail, extra) with kind in
+    {'violation', 'drift'}; only the first diverging step of a history should be reported.
+    """
+    import json as _json
+    from . import tlaval
+    ranges = tlaval.dump_ranges(path, procs * 4)
+    mpctx = mp.get_context("fork")
+    seen = set()
+    with mpctx.Pool(procs) as pool:
+        for n, out, sample in pool.imap_unordered(_replay_range, [(judge, path, s, e, max_hist, ctx) for s, e in ranges]):
+            v.replayed += n * count_mult
+            for s in sample:
+                v.sample(s)
+            for kind, sig, prefix, detail, extra in out:
+                key = (kind, sig, _json.dumps(prefix, sort_keys=True), _json.dumps(extra, sort_keys=True, default=str))
+                if key in seen:
+                    continue
+                seen.add(key)
+                case = {"spec": spec, "hist": prefix, "ctx": extra}
+                if kind == "violation":
+                    v.report(sig, case, detail)
+                else:
+                    v.drift(sig, case, detail)
